@@ -91,10 +91,9 @@ func pruneDocNulls(doc *partialDoc, options *ApplyOptions) *partialDoc {
 func pruneAryNulls(ary *partialArray, options *ApplyOptions) *partialArray {
 	newAry := []*lazyNode{}
 
+	// RFC 7396 replaces arrays wholesale: their elements are not merge
+	// patches, so null members of objects inside an array are data.
 	for _, v := range ary.nodes {
-		if v != nil {
-			pruneNulls(v, options)
-		}
 		newAry = append(newAry, v)
 	}
 
